@@ -198,3 +198,13 @@ pub(crate) fn regex_new__must_not_be_reached(
 ) -> Result<crate::rhs_types::Regex, crate::rhs_types::RegexError> {
     panic!("the regex compiler was reached")
 }
+
+/// Replacement for `std::mem::drop` in parser obligations: leak instead of drop.
+/// `BTreeMap::drop` is `drop(ptr::read(self).into_iter())`; with this stub the
+/// BTreeSet-backed `ExpectedTypeList` inside a `LexErrorKind` is not traversed when a
+/// failed parse alternative is discarded (CBMC explores that destructor because the
+/// variant tag is not folded: > 250 s per dropped error).  Dropping is not part of any
+/// postcondition; leaking cannot make an assertion pass.
+pub(crate) fn mem_drop__leak<T>(x: T) {
+    std::mem::forget(x)
+}
